@@ -28,9 +28,30 @@ public:
     std::vector<std::vector<Rec>> recs;
     std::vector<Token> tokens;
     std::string label;
+    // with_gc: the epoch thread and the gc thread of the library run as two more scheduled threads (ehz / ghz wake-ups each), so
+    // that whatever a storage operation retires can be reclaimed while the operation is still running
+    bool with_gc = false;
+    int ehz = 3, ghz = 2;
+    int finished_workers = 0;
     std::string name() override { return label; }
-    int nthreads() override { return int(progs.size()); }
+    int nworkers() const { return int(progs.size()); }
+    int nthreads() override { return nworkers() + (with_gc ? 2 : 0); }
+    int horizon(int tid) override {
+        if (with_gc && tid == nworkers()) return ehz;
+        if (with_gc && tid == nworkers() + 1) return ghz;
+        return 0;
+    }
+    void worker_done() {
+        if (!with_gc) return;
+        ykmc::harness_point(ykmc::K_RMW, &finished_workers, 4, __LINE__);
+        if (++finished_workers == nworkers()) {
+            epoch_manager::set_epoch_thread_end();
+            epoch_manager::set_gc_thread_end();
+            ykmc::release_parked();
+        }
+    }
     void setup() override {
+        finished_workers = 0;
         ykc::sequential_teardown_mode();
         ykc::reset_library_statics();
         ykalloc::clear_errors();
@@ -45,8 +66,17 @@ public:
         }
         recs.assign(progs.size(), {});
         tokens.assign(progs.size(), nullptr);
+        if (with_gc) ykc::drain_retired(); // nothing the setup retired is attributed to the operations under test
     }
     void body(int tid) override {
+        if (with_gc && tid == nworkers()) {
+            epoch_manager::epoch_thread();
+            return;
+        }
+        if (with_gc && tid == nworkers() + 1) {
+            epoch_manager::gc_thread();
+            return;
+        }
         for (auto& o : progs[size_t(tid)]) {
             Rec r;
             r.tid = tid;
@@ -73,6 +103,7 @@ public:
             r.ret = ykmc::op_end();
             recs[size_t(tid)].push_back(r);
         }
+        worker_done();
     }
     // sequential model of the storage set; returns false if the recorded status is impossible
     static bool apply(const Rec& r, std::set<std::string>& m) {
@@ -189,6 +220,7 @@ inline void scenarios(std::vector<hm::Scenario>& out) {
         std::vector<std::vector<Op>> progs;
         bool quick;
         int bq, bt;
+        bool gc = false;
     };
     std::string a = "a", b = "b", l9 = "aaaaaaaab";
     std::vector<S> ss = {
@@ -206,6 +238,13 @@ inline void scenarios(std::vector<hm::Scenario>& out) {
             {{}, {{{CREATE, a}, {DELETE, a}}, {{CREATE, a}}}, false, 2, 2},
             {{a}, {{{DELETE, a}, {CREATE, a}}, {{DELETE, a}}}, false, 2, 2},
             {{}, {{{CREATE, a}}, {{CREATE, a}}, {{FIND, a}}}, false, 2, 2},
+            // with the epoch and gc threads running: the entry (which embeds the tree_instance) that a delete retires may be
+            // reclaimed as soon as the deleting session has left
+            {{a}, {{{DELETE, a}}}, true, 2, 3, true},
+            {{a, b}, {{{DELETE, a}}, {{PUTN, b}}}, false, 2, 2, true},
+            {{a}, {{{DELETE, a}}, {{CREATE, b}}}, false, 2, 2, true},
+            {{a}, {{{DELETE, a}, {CREATE, a}}}, false, 2, 3, true},
+            {{}, {{{CREATE, a}, {DELETE, a}}}, false, 2, 3, true},
     };
     for (auto& s : ss) {
         hm::Scenario sc;
@@ -216,18 +255,20 @@ inline void scenarios(std::vector<hm::Scenario>& out) {
         }
         std::string in;
         for (auto& n : s.init) in += ykc::hex(n) + "+";
-        sc.name = "ddl/init[" + in + "]/" + pn;
+        sc.name = std::string(s.gc ? "ddl+gc" : "ddl") + "/init[" + in + "]/" + pn;
         sc.sigclass = "ddl";
         sc.quick = s.quick;
         sc.bound_quick = s.bq;
         sc.bound_thorough = s.bt;
         sc.cls_mask = (1u << ykmc::C_TREE) | (1u << ykmc::C_SESSION);
+        if (s.gc) sc.cls_mask |= (1u << ykmc::C_HARNESS); // the background threads run each wake-up atomically: they switch only where they sleep
         S cs = s;
         std::string nm = sc.name;
         sc.make = [cs, nm]() {
             auto h = std::make_unique<H>();
             h->initial = cs.init;
             h->progs = cs.progs;
+            h->with_gc = cs.gc;
             h->label = nm;
             return h;
         };
